@@ -883,6 +883,15 @@ Definition all_modes : list (tol * bool) :=
 Definition run_exn_all (c : ecase) : list obs :=
   map (fun ta => observe (render_site all_fixed (c_prims c) (fst ta) (snd ta) (c_site c) (c_v c) (c_args c))) all_modes.
 
+(* the same six observations with the expression evaluated once (async only matters for SRootBracket); equal to run_exn_all
+   (ExnFlow_Proofs.run_exn_all_fast_eq); the correspondence run uses this one: arithmetic on 5000-digit integers is slow *)
+Definition run_exn_all_fast (c : ecase) : list obs :=
+  let rs := eval_site all_fixed (c_prims c) false (c_site c) (c_v c) (c_args c) in
+  let ra := match c_site c with SRootBracket => eval_site all_fixed (c_prims c) true (c_site c) (c_v c) (c_args c) | _ => rs end in
+  let fs := do r <- rs; to_liquid_string r in
+  let fa := match c_site c with SRootBracket => do r <- ra; to_liquid_string r | _ => fs end in
+  map (fun ta : tol * bool => observe (node_handler (fst ta) (if snd ta then fa else fs))) all_modes.
+
 (* primitive tables as observations, for the check against CPython *)
 Inductive pcase :=
 | PInt (v : value) | PFloatStr (s : scl) | PFloatToInt (f : fcl) | PStr (v : value)
